@@ -14,6 +14,12 @@ sees are what the other parties did in between.  A schedule is a list of party i
 Parties are mdsort runs (`errOf (matchesExec ..)` for one message, `scanExec` for a directory
 listing followed by the action list on every name found) and an external client
 (`clientProg`: `rename` and `unlink` of names in the maildirs, e.g. `name -> name:2,S`).
+
+Read from the history (`Shared.log`): which entry a call removed / bound, the commit of a copy
+(`Event.commits`), the lineage of a file (`originIn`: a committed copy descends from the file it
+superseded), an outright removal of a version of an initial file (`Event.destroysRoot`).
+Isolation hypotheses: `Hiso` (per step: `isoStep`), `HisoExcept` (clients exempt), `HisoOwn` (the
+local clause only), `HisoReaddir` / `HisoReaddirNS` (stated on what `readdir` returns).
 -/
 
 namespace Mdsort.Model
